@@ -336,7 +336,7 @@ var c13Failed atomic.Bool
 
 func c13Patience(c *c13Case) time.Duration {
 	if c13Failed.Load() {
-		return 5 * time.Second
+		return 15 * time.Second
 	}
 	return 40*time.Second + 20*time.Duration(c.sumSleepUs)*time.Microsecond
 }
@@ -1030,14 +1030,9 @@ func runC13Case(c *c13Case) c13Outcome {
 		}
 	}
 
-	// shutdown
-	if os.Getenv("C13_DEBUG") != "" {
-		fmt.Printf("DEBUG shutdown: family=%s completed=%v errored=%v firstErr=%v written=%d handled=%d/%d fails=%v\n", c.Family, out.completed, out.errored, firstErr, r.written.Load(), handledCount(), len(c.Wire), r.fails)
-		fmt.Printf("DEBUG   stream=%d segs=%d case=%v\n", len(stream), len(segs), c.describe())
-	}
-	// same order as Connection.shutdown: the muxer first. (Protocol.Stop() blocks in
-	// Muxer.UnregisterProtocol for as long as the muxer's read loop is parked on this
-	// protocol's full receive channel, see findings/C13.md.)
+	// shutdown, in the order Connection.shutdown uses: the muxer first.
+	// (Protocol.Stop() blocks in Muxer.UnregisterProtocol for as long as the muxer's
+	// read loop is parked on this protocol's full receive channel, see findings/C13.md.)
 	close(stopWriter)
 	m.Stop()
 	r.P.Stop()
@@ -1105,18 +1100,8 @@ func TestC13(t *testing.T) {
 		c := genC13Case(rt, rec.Thorough())
 		procs, restore := setProcs(rt)
 		c.Procs = procs
-		t0 := time.Now()
 		out := runC13Case(c)
 		restore()
-		if os.Getenv("C13_DEBUG") != "" {
-			tot := 0
-			for _, w := range c.Wire {
-				tot += len(w)
-			}
-			f, _ := os.OpenFile(os.Getenv("C13_DEBUG"), os.O_APPEND|os.O_CREATE|os.O_WRONLY, 0o644)
-			defer f.Close()
-			fmt.Fprintf(f, "TIMING %s %.3fs n=%d bytes=%d first=%v tdelays=%v cuts=%v gate=%d oversize=%d plan=%s fails=%d\n", c.Family, time.Since(t0).Seconds(), len(c.Wire), tot, clipInts(c.sizes(), 3), c.TransDelays, clipInts(c.Cuts, 4), c.Gate, c.Oversize, c.plan, len(out.fails))
-		}
 		rec.Eval()
 		r := out.run
 		rec.Class("family_" + c.Family)
